@@ -204,3 +204,63 @@ convolution = Contract("C13.kmers.convolution.new_func[ragged]", target=_conv_ta
 convolution.callees = _callees_conv(_holder)
 
 CONTRACTS = [rolling_plain, rolling_encoded, convolution]
+
+
+# --- k-mer code = little-endian base-|A| number of the window's letters, and it renders back to the letters -------------------------------
+# KmerEncoder.__call__ / KmerEncoder.inverse for concrete (|A|, k): each pair is a separate, loop-free, full-domain obligation over an
+# arbitrary number of windows with arbitrary letters in [0, |A|) - complete for that (|A|, k), not bounded.
+def _KE():
+    from bionumpy.sequence.kmers import KmerEncoder
+    return KmerEncoder
+
+
+PAIRS = [(4, k) for k in range(1, 7)] + [(5, k) for k in range(1, 5)] + [(21, k) for k in range(1, 4)] + [(3, 3)]     # larger k: bounded (solver time grows with k)
+
+
+def _setup_kmer(A, k):
+    def setup(ctx):
+        from bionumpy.encodings.kmer_encodings import KmerEncoding
+        st = St()
+        st.A, st.k = A, k
+        st.n = z3.Int("n_windows")
+        st.x = z3.Function("letter", z3.IntSort(), z3.IntSort(), z3.IntSort())
+        ctx.ip.class_models[KmerEncoding] = lambda ip, args, kwargs, lineno: "KmerEncoding(%d)" % k
+        st.selfv = ctx.ip.construct(_KE(), [k, SRec(None, alphabet_size=A)], {}, None)
+        st.windows = SArr2.fresh(st.n, k, lambda i, j: st.x(I(i), I(j)), enc="alphabet")
+        return st
+    return setup
+
+
+def _req_kmer(ctx, st):
+    return [st.n >= 0, Forall(lambda i, j: And(st.x(i, j) >= 0, st.x(i, j) < st.A), nvars=2, triggers=[st.x], name="letters are codes in [0, |A|)")]
+
+
+def code(st, i):
+    return sum(st.x(I(i), j) * (st.A ** j) for j in range(st.k))
+
+
+def _mk_call(A, k):
+    def setup(ctx):
+        st = _setup_kmer(A, k)(ctx)
+        st.args = [st.windows]
+        return st
+    return Contract("C13.KmerEncoder.__call__[|A|=%d,k=%d]" % (A, k), target=lambda: _KE().__call__, setup=setup, requires=_req_kmer,
+                    ensures=lambda ctx, st, ret: [("length", I(ret.length) == st.n),
+                                                  ("code.is.the.little-endian.base-|A|.number", Forall(lambda i: Implies(in_range(i, st.n), ret.at(i) == code(st, i)))),
+                                                  ("encoding", ret.enc is not None)],
+                    callees=CALLEES, canaries=[("big-endian weights", "self._alphabet_size ** np.arange(self._k)", "self._alphabet_size ** np.arange(self._k)[::-1]", lambda: _KE().__init__)] if k == 3 else [])
+
+
+def _mk_inverse(A, k):
+    def setup(ctx):
+        st = _setup_kmer(A, k)(ctx)
+        st.args = [SArr.fresh(st.n, lambda i: code(st, i))]
+        return st
+    return Contract("C13.KmerEncoder.inverse[|A|=%d,k=%d]" % (A, k), target=lambda: _KE().inverse, setup=setup, requires=_req_kmer,
+                    ensures=lambda ctx, st, ret: [("renders.back.to.the.window's.letters",
+                                                   Forall(lambda i, j: Implies(And(in_range(i, st.n), in_range(j, st.k)), ret.at2(i, j) == st.x(i, j)), nvars=2))],
+                    callees=CALLEES, canaries=[("modulus off", "% self._alphabet_size", "% (self._alphabet_size + 1)")] if k == 3 else [])
+
+
+KMER = [_mk_call(A, k) for A, k in PAIRS] + [_mk_inverse(A, k) for A, k in PAIRS]
+CONTRACTS += KMER
